@@ -1,6 +1,428 @@
-//! C18 — not implemented yet.
+//! C18 — Parquet table statistics are sound bounds.
+//!
+//! Generator: a table of 1..4 Parquet files (a BIGINT, b INTEGER, c DATE,
+//! f DOUBLE, s VARCHAR), each file with its own row count (0..24), row-group
+//! size, per-column statistics level (none / chunk / page), NULL density
+//! (0 % / some / 100 %) and value neighbourhood (so min/max differ from file to
+//! file), including i32/i64 extremes. The files are written with the harness'
+//! own writer (per-column statistics switch).
+//!
+//! Oracle (model = the rows that were written, cross-checked against a full
+//! `scan()` of the provider): `statistics().row_count` is the exact row count;
+//! `null_count == Some(n)` implies n is the true NULL count of the column;
+//! `min_i64 / max_i64`, when present, bound every non-NULL value of the column
+//! in every file. (`ndv_est` and the sampled float fields are estimates and are
+//! not checked here; that they never decide an answer is C03's subject.)
+//!
+//! Known findings:
+//!  * `minmax-ignores-chunks-without-statistics` — a column chunk written
+//!    without statistics poisons `null_count` but not `min_i64/max_i64`, which
+//!    are then folded from the remaining chunks only and no longer bound the
+//!    values of the statistics-less chunk;
+//!  * `statistics-ndv-range-overflow` — `(max - min) as u64 + 1` overflows i64
+//!    when a BIGINT column spans more than i64::MAX: `statistics()` panics in
+//!    builds with overflow checks (the harness' and `cargo test`'s profile).
 use super::Property;
+use crate::data::{self, ColType, Table, TempDir, Value};
+use crate::engine;
+use crate::runner::*;
+use proptest::prelude::*;
+use query_engine::physical::operators::TableProvider;
+use query_engine::storage::ParquetTable;
+use serde::{Deserialize, Serialize};
+use std::path::{Path, PathBuf};
+
+pub const KF_MINMAX: &str = "minmax-ignores-chunks-without-statistics";
+pub const KF_NDV: &str = "statistics-ndv-range-overflow";
+
+const COLS: [(&str, ColType); 5] = [
+    ("a", ColType::Int),
+    ("b", ColType::Int32),
+    ("c", ColType::Date),
+    ("f", ColType::Double),
+    ("s", ColType::Str),
+];
+
+#[derive(Clone, Debug, Serialize, Deserialize)]
+pub struct FileSpec {
+    /// rows of (a, b, c, f, s)
+    pub rows: Vec<Vec<Value>>,
+    pub rg_size: usize,
+    /// per column: 0 = no statistics, 1 = chunk, 2 = page
+    pub stats: Vec<u8>,
+    pub dictionary: bool,
+}
+#[derive(Clone, Debug, Serialize, Deserialize)]
+pub struct Case {
+    pub files: Vec<FileSpec>,
+    /// open with ParquetTable::try_from_files (explicit list) instead of the directory
+    pub explicit_list: bool,
+}
+
+fn write_file(f: &FileSpec, path: &Path) {
+    use parquet::arrow::ArrowWriter;
+    use parquet::file::properties::{EnabledStatistics, WriterProperties};
+    use parquet::schema::types::ColumnPath;
+    let t = Table {
+        name: "t".into(),
+        cols: COLS.iter().map(|(n, t)| data::Column { name: n.to_string(), ty: *t }).collect(),
+        rows: f.rows.clone(),
+    };
+    let mut b = WriterProperties::builder()
+        .set_max_row_group_size(f.rg_size.max(1))
+        .set_dictionary_enabled(f.dictionary);
+    for (i, (name, _)) in COLS.iter().enumerate() {
+        let lvl = match f.stats.get(i).copied().unwrap_or(1) {
+            0 => EnabledStatistics::None,
+            1 => EnabledStatistics::Chunk,
+            _ => EnabledStatistics::Page,
+        };
+        b = b.set_column_statistics_enabled(ColumnPath::from(*name), lvl);
+    }
+    let file = std::fs::File::create(path).unwrap();
+    let mut w = ArrowWriter::try_new(file, t.schema(), Some(b.build())).unwrap();
+    if !t.rows.is_empty() {
+        w.write(&t.batch(0, t.rows.len())).unwrap();
+    }
+    w.close().unwrap();
+}
+
+fn as_i64(v: &Value) -> Option<i64> {
+    match v {
+        Value::Int(i) => Some(*i),
+        Value::Date(d) => Some(*d as i64),
+        _ => None,
+    }
+}
+
+// ---------------------------------------------------------------------------
+// generator
+// ---------------------------------------------------------------------------
+fn int_base(col: usize, extreme: bool) -> BoxedStrategy<i64> {
+    match col {
+        0 => {
+            if extreme {
+                prop_oneof![
+                    3 => prop_oneof![Just(0i64), Just(100), Just(-100), Just(1i64 << 40)],
+                    1 => Just(i64::MIN),
+                    1 => Just(i64::MAX - 5),
+                    1 => Just(-(1i64 << 62)),
+                    1 => Just(1i64 << 62),
+                ]
+                .boxed()
+            } else {
+                prop_oneof![Just(0i64), Just(100), Just(-100), Just(1i64 << 40), Just(-(1i64 << 40)), Just(7)].boxed()
+            }
+        }
+        1 => prop_oneof![
+            5 => prop_oneof![Just(0i64), Just(50), Just(-50), Just(1000)],
+            1 => Just(i32::MIN as i64),
+            1 => Just(i32::MAX as i64 - 5),
+        ]
+        .boxed(),
+        _ => prop_oneof![
+            5 => prop_oneof![Just(10957i64), Just(0), Just(-10), Just(20000)],
+            1 => Just(i32::MIN as i64),
+            1 => Just(i32::MAX as i64 - 5),
+        ]
+        .boxed(),
+    }
+}
+fn file_spec(extreme: bool) -> BoxedStrategy<FileSpec> {
+    let nullp = || prop_oneof![3 => Just(0u32), 3 => Just(30u32), 1 => Just(100u32)];
+    let stats = || prop_oneof![7 => Just(1u8), 2 => Just(0u8), 1 => Just(2u8)];
+    (
+        prop_oneof![1 => Just(0usize), 8 => 1usize..25],
+        prop_oneof![Just(1usize), Just(2), Just(3), Just(5), Just(8), Just(100)],
+        proptest::collection::vec(stats(), COLS.len()),
+        any::<bool>(),
+        (int_base(0, extreme), nullp()),
+        (int_base(1, extreme), nullp()),
+        (int_base(2, extreme), nullp()),
+        (nullp(), nullp()),
+    )
+        .prop_flat_map(|(n, rg_size, stats, dictionary, a, b, c, fs)| {
+            (
+                Just((rg_size, stats, dictionary, a, b, c, fs)),
+                proptest::collection::vec(proptest::collection::vec((0u32..100, 0i64..6), COLS.len()), n),
+            )
+        })
+        .prop_map(|((rg_size, stats, dictionary, a, b, c, fs), cells)| {
+            let rows = cells
+                .iter()
+                .map(|r| {
+                    let int = |k: usize, base: i64, np: u32, lo: i64, hi: i64| {
+                        if r[k].0 < np {
+                            None
+                        } else {
+                            Some(base.saturating_add(r[k].1).clamp(lo, hi))
+                        }
+                    };
+                    vec![
+                        int(0, a.0, a.1, i64::MIN, i64::MAX).map(Value::Int).unwrap_or(Value::Null),
+                        int(1, b.0, b.1, i32::MIN as i64, i32::MAX as i64).map(Value::Int).unwrap_or(Value::Null),
+                        int(2, c.0, c.1, i32::MIN as i64, i32::MAX as i64)
+                            .map(|d| Value::Date(d as i32))
+                            .unwrap_or(Value::Null),
+                        if r[3].0 < fs.0 { Value::Null } else { Value::Double(r[3].1 as f64 * 0.5) },
+                        if r[4].0 < fs.1 { Value::Null } else { Value::Str(["x", "y", "zz", "", "é", "w"][r[4].1 as usize].to_string()) },
+                    ]
+                })
+                .collect();
+            FileSpec { rows, rg_size, stats, dictionary }
+        })
+        .boxed()
+}
+
+pub struct Stats;
+impl Check for Stats {
+    type Case = Case;
+    fn name(&self) -> &'static str {
+        "footer_statistics"
+    }
+    fn rule(&self) -> &'static str {
+        "the table has >= 2 non-empty files, an integer column holds NULLs, and some integer column has statistics in some chunks but not in others"
+    }
+    fn cases(&self, tier: Tier) -> u32 {
+        tier.pick(3000, 150_000)
+    }
+    fn strategy(&self, _tier: Tier) -> BoxedStrategy<Case> {
+        prop_oneof![9 => Just(false), 1 => Just(true)]
+            .prop_flat_map(|extreme| {
+                (
+                    prop_oneof![
+                        1 => proptest::collection::vec(file_spec(extreme), 1..2),
+                        6 => proptest::collection::vec(file_spec(extreme), 2..5),
+                    ],
+                    prop_oneof![3 => Just(false), 1 => Just(true)],
+                )
+            })
+            .prop_flat_map(|(files, explicit_list)| (Just(files), Just(explicit_list), 0u32..100))
+            .prop_map(|(mut files, explicit_list, calm)| {
+                // 80 % of the tables keep the values of statistics-less chunks
+                // inside the range of the chunks that do carry statistics (the
+                // open min/max finding then stays silent and the search goes on
+                // behind it); the rest leave them wherever they fell.
+                if calm < 80 {
+                    for k in 0..3 {
+                        let (mut lo, mut hi): (Option<i64>, Option<i64>) = (None, None);
+                        for f in files.iter().filter(|f| f.stats[k] != 0) {
+                            for r in &f.rows {
+                                if let Some(v) = as_i64(&r[k]) {
+                                    lo = Some(lo.map_or(v, |m| m.min(v)));
+                                    hi = Some(hi.map_or(v, |m| m.max(v)));
+                                }
+                            }
+                        }
+                        if let (Some(lo), Some(hi)) = (lo, hi) {
+                            for f in files.iter_mut().filter(|f| f.stats[k] == 0) {
+                                for r in f.rows.iter_mut() {
+                                    r[k] = match &r[k] {
+                                        Value::Int(v) => Value::Int((*v).clamp(lo, hi)),
+                                        Value::Date(v) => Value::Date((*v as i64).clamp(lo, hi) as i32),
+                                        o => o.clone(),
+                                    };
+                                }
+                            }
+                        }
+                    }
+                }
+                Case { files, explicit_list }
+            })
+            .boxed()
+    }
+    fn test(&self, c: &Case, obs: &mut Obs) -> Verdict {
+        if c.files.is_empty() || c.files.iter().any(|f| f.rows.iter().any(|r| r.len() != COLS.len())) {
+            return Verdict::Discard("malformed case".into());
+        }
+        let tmp = TempDir::new("c18");
+        let dir = tmp.path().join("t");
+        std::fs::create_dir_all(&dir).unwrap();
+        let mut paths: Vec<PathBuf> = vec![];
+        for (i, f) in c.files.iter().enumerate() {
+            let p = dir.join(format!("part-{:03}.parquet", i));
+            write_file(f, &p);
+            paths.push(p);
+        }
+        let provider = if c.explicit_list {
+            ParquetTable::try_from_files(paths.clone())
+        } else {
+            ParquetTable::try_new(&dir)
+        };
+        let provider = match provider {
+            Ok(p) => p,
+            Err(e) => return Verdict::Discard(format!("cannot open table: {}", e.to_string().chars().take(60).collect::<String>())),
+        };
+
+        // ---- the model: what was written -------------------------------
+        let total: usize = c.files.iter().map(|f| f.rows.len()).sum();
+        let ncol = COLS.len();
+        let mut nulls = vec![0u64; ncol];
+        let mut mins: Vec<Option<i64>> = vec![None; ncol];
+        let mut maxs: Vec<Option<i64>> = vec![None; ncol];
+        for f in &c.files {
+            for r in &f.rows {
+                for k in 0..ncol {
+                    if r[k].is_null() {
+                        nulls[k] += 1;
+                    } else if let Some(v) = as_i64(&r[k]) {
+                        mins[k] = Some(mins[k].map_or(v, |m| m.min(v)));
+                        maxs[k] = Some(maxs[k].map_or(v, |m| m.max(v)));
+                    }
+                }
+            }
+        }
+        // non-triviality
+        let nonempty = c.files.iter().filter(|f| !f.rows.is_empty()).count();
+        let int_nulls = (0..3).any(|k| nulls[k] > 0);
+        let mixed_stats = (0..3).any(|k| {
+            let with = c.files.iter().any(|f| !f.rows.is_empty() && f.stats[k] != 0);
+            let without = c.files.iter().any(|f| !f.rows.is_empty() && f.stats[k] == 0);
+            with && without
+        });
+        if mixed_stats {
+            obs.label("int-column-with-and-without-statistics");
+        }
+        if nonempty >= 2 {
+            obs.label("multi-file");
+        }
+        if c.files.iter().any(|f| f.rows.len() > f.rg_size) {
+            obs.label("multi-row-group-file");
+        }
+        obs.nontrivial(nonempty >= 2 && int_nulls && mixed_stats);
+
+        // ---- the provider's own scan must agree with what was written ---
+        match std::panic::catch_unwind(std::panic::AssertUnwindSafe(|| provider.scan(None))) {
+            Ok(Ok(batches)) => {
+                let n: usize = batches.iter().map(|b| b.num_rows()).sum();
+                if n != total {
+                    return Verdict::Discard(format!("scan() returns {} rows, {} were written (not C18's subject)", n, total));
+                }
+            }
+            _ => return Verdict::Discard("scan() failed".into()),
+        }
+
+        // ---- statistics() ------------------------------------------------
+        let st = match std::panic::catch_unwind(std::panic::AssertUnwindSafe(|| provider.statistics())) {
+            Ok(Some(s)) => s,
+            Ok(None) => {
+                obs.label("statistics=None");
+                return Verdict::Pass;
+            }
+            Err(p) => {
+                let text = engine::panic_text(p);
+                // signature: arithmetic overflow AND an integer column whose
+                // footer min/max span more than i64::MAX
+                let spans = (0..3).any(|k| {
+                    let (mut lo, mut hi): (Option<i64>, Option<i64>) = (None, None);
+                    for f in &c.files {
+                        if f.stats[k] == 0 {
+                            continue;
+                        }
+                        for r in &f.rows {
+                            if let Some(v) = as_i64(&r[k]) {
+                                lo = Some(lo.map_or(v, |m| m.min(v)));
+                                hi = Some(hi.map_or(v, |m| m.max(v)));
+                            }
+                        }
+                    }
+                    matches!((lo, hi), (Some(l), Some(h)) if h.checked_sub(l).is_none())
+                });
+                let msg = format!("statistics() panicked: {}", text);
+                if text.contains("overflow") && spans {
+                    obs.label("hit:ndv-range-overflow");
+                    return Verdict::Known { id: KF_NDV.into(), msg };
+                }
+                return Verdict::Fail(msg);
+            }
+        };
+        if st.row_count != total {
+            return Verdict::Fail(format!("statistics().row_count = {} but the files hold {} rows", st.row_count, total));
+        }
+        let mut known: Option<String> = None;
+        for k in 0..ncol {
+            let name = COLS[k].0;
+            let cs = match st.column_stats.get(name) {
+                Some(cs) => cs,
+                None => {
+                    obs.label("column-without-entry");
+                    continue;
+                }
+            };
+            if let Some(n) = cs.null_count {
+                obs.label("null_count-present");
+                if n != nulls[k] {
+                    return Verdict::Fail(format!(
+                        "column {}: null_count = Some({}) but the column holds {} NULLs in {} rows",
+                        name, n, nulls[k], total
+                    ));
+                }
+            } else {
+                obs.label("null_count-absent");
+            }
+            if k >= 3 {
+                continue;
+            }
+            for (what, bound, is_min) in [("min_i64", cs.min_i64, true), ("max_i64", cs.max_i64, false)] {
+                let Some(bv) = bound else { continue };
+                obs.label("int-bound-present");
+                // every value must be inside; find offenders and where they live
+                let mut offenders = 0usize;
+                let mut all_in_statless = true;
+                let mut example: Option<(usize, i64)> = None;
+                for (fi, f) in c.files.iter().enumerate() {
+                    for r in &f.rows {
+                        if let Some(v) = as_i64(&r[k]) {
+                            let bad = if is_min { v < bv } else { v > bv };
+                            if bad {
+                                offenders += 1;
+                                example.get_or_insert((fi, v));
+                                if f.stats[k] != 0 {
+                                    all_in_statless = false;
+                                }
+                            }
+                        }
+                    }
+                }
+                if offenders > 0 {
+                    let (fi, v) = example.unwrap();
+                    let msg = format!(
+                        "column {}: {} = {} but file {} holds the value {} ({} values outside the bound; true min {:?} max {:?}); statistics levels of the column per file: {:?}",
+                        name,
+                        what,
+                        bv,
+                        fi,
+                        v,
+                        offenders,
+                        mins[k],
+                        maxs[k],
+                        c.files.iter().map(|f| f.stats[k]).collect::<Vec<_>>()
+                    );
+                    if all_in_statless {
+                        known.get_or_insert(msg);
+                    } else {
+                        return Verdict::Fail(msg);
+                    }
+                }
+            }
+        }
+        if let Some(msg) = known {
+            obs.label("hit:minmax-ignores-statless-chunks");
+            return Verdict::Known { id: KF_MINMAX.into(), msg };
+        }
+        Verdict::Pass
+    }
+}
 
 pub fn property() -> Property {
-    Property { id: "C18", level: "exploration", assumptions: &[], checks: vec![] }
+    Property {
+        id: "C18",
+        level: "exploration",
+        assumptions: &[
+            "truth is the set of rows written by the harness (the provider's scan() must return the same number of rows, else the case is discarded)",
+            "only row_count, null_count and min_i64/max_i64 are facts; ndv_est and the sampled float/string fields are estimates (their non-use for answers is C03's subject)",
+            "a panic of statistics() is reported (it reports nothing, so it cannot be 'facts about the files')",
+        ],
+        checks: vec![Box::new(Stats)],
+    }
 }
